@@ -2221,6 +2221,65 @@ def M_bool_then(it, ctx, args, st):
             yield s3, (r if is_abnormal(r) else it.some(r))
 
 
+# ---- ordered / hashed maps as association lists: Seq of Agg('tuple', (key, value)) in insertion order (what M_collect builds).
+#      Exact for maps of at most one entry and for maps whose keys are pairwise different (callers state which); ordering of the
+#      iteration is insertion order, not key order.
+def _map_seq(st, p):
+    while isinstance(st.deref(p), Ptr):
+        p = st.deref(p)
+    v = st.deref(p)
+    if isinstance(v, Agg) and len(v.fields) == 1 and isinstance(v.fields[0], Seq):
+        p, v = Ptr(p.addr, p.proj + (('f', 0),)), v.fields[0]
+    if not isinstance(v, Seq):
+        raise Unsupported('map model on ' + repr(v)[:60])
+    return p, v
+
+
+def M_map_new(it, ctx, args, st):
+    yield st, Seq(())
+
+
+def M_map_insert(it, ctx, args, st):
+    p, v = _map_seq(st, args[0])
+    if v.items:
+        raise Unsupported('map insert into a non-empty association list (key comparison not modelled)')
+    st.write(p, Seq(v.items + (Agg('tuple', (args[1], args[2])),)))
+    yield st, it.none
+
+
+def M_map_len(it, ctx, args, st):
+    p, v = _map_seq(st, args[0])
+    yield st, bv(len(v.items))
+
+
+def M_map_is_empty(it, ctx, args, st):
+    p, v = _map_seq(st, args[0])
+    yield st, z3.BoolVal(not v.items)
+
+
+def M_map_iter(it, ctx, args, st):
+    p, v = _map_seq(st, args[0])
+    yield st, It('list', tuple(Agg('tuple', (Ptr(p.addr, p.proj + (('i', i), ('f', 0))), Ptr(p.addr, p.proj + (('i', i), ('f', 1))))) for i in range(len(v.items))))
+
+
+def M_map_first_key_value(it, ctx, args, st):
+    p, v = _map_seq(st, args[0])
+    if len(v.items) > 1:
+        raise Unsupported('first_key_value of a map with several entries (key order not modelled)')
+    yield st, (it.some(Agg('tuple', (Ptr(p.addr, p.proj + (('i', 0), ('f', 0))), Ptr(p.addr, p.proj + (('i', 0), ('f', 1)))))) if v.items else it.none)
+
+
+def is_seq_map(it, ctx, args, st):
+    try:
+        _map_seq(st, args[0])
+        return True
+    except Exception:
+        return False
+
+
+MAPT = r'(?:std|core|alloc)::collections::(?:BTreeMap|HashMap)::<.*>::'
+
+
 def M_from_iter(it, ctx, args, st):
     """<C as FromIterator<T>>::from_iter(iter)  ==  iter.into_iter().collect::<C>()"""
     ctx2 = type('C', (), {'gargs': [ctx.self_ty], 'fr': ctx.fr, 'callee': ctx.callee, 'self_ty': ctx.self_ty})()
@@ -2631,6 +2690,8 @@ MODELS = [
     (ITER + r'filter_map::<.*>', M_adaptor('filter_map')), (ITER + r'flat_map::<.*>', M_adaptor('flat_map')),
     (ITER + r'enumerate', M_adaptor('enumerate')), (ITER + r'rev', M_iter_rev),
     (r'<.* as ' + P + r'iter::FromIterator<.*>>::from_iter::<.*>', M_from_iter),
+    (MAPT + r'new', M_map_new), (MAPT + r'insert', M_map_insert, is_seq_map), (MAPT + r'len', M_map_len, is_seq_map), (MAPT + r'is_empty', M_map_is_empty, is_seq_map),
+    (MAPT + r'iter', M_map_iter, is_seq_map), (MAPT + r'first_key_value', M_map_first_key_value, is_seq_map),
     (P + r'bool::<impl bool>::then_some::<.*>', M_bool_then_some), (P + r'bool::<impl bool>::then::<.*>', M_bool_then),
     (ITER + r'collect::<.*>', M_collect), (ITER + r'count', M_count), (ITER + r'all::<.*>', M_all), (ITER + r'any::<.*>', M_any),
     (ITER + r'find_map::<.*>', M_find_map),
